@@ -456,7 +456,7 @@ impl Property for C06 {
     }
 
     fn plan(&self, tier: Tier) -> Vec<Stage<Case>> {
-        vec![Stage::random("random", tier.pick(3_200, 64_000), case_strategy)]
+        vec![Stage::random("random", tier.pick(4_000, 200_000), case_strategy)]
     }
 
     fn rule(&self) -> String {
@@ -464,7 +464,7 @@ impl Property for C06 {
     }
 
     fn floors(&self, tier: Tier) -> Vec<Floor> {
-        let n = tier.pick(3_200u64, 64_000);
+        let n = tier.pick(4_000u64, 200_000);
         vec![
             Floor { label: "equality:equal", min: n / 10 },
             Floor { label: "equality:unequal", min: n / 20 },
